@@ -3,6 +3,7 @@ import NixModel.Lemmas.C05Dim
 import NixModel.Generated.LinkShape
 import NixModel.Lemmas.C05Accept
 import NixModel.Lemmas.C05Stale
+import NixModel.Lemmas.C05Hist
 
 /-!
 # C05 — links are aliases of the original entity, never copies, and stay in their block
@@ -753,6 +754,39 @@ theorem deleted_is_detached (g : Graph) (c : Cont) (k : Nat) (hf : c.info.flavou
     simp at this
 
 
+/-- what a kept handle stands for: the node its name leads to in its parent group (when the name exists there — the
+entity it was taken from, or whatever was created / linked under that name since), else the object it opened -/
+theorem kept_handle_cases (g : Graph) (h : Handle) :
+    g.child? h.parent h.lname = some (h.node g) ∨ (g.child? h.parent h.lname = none ∧ h.node g = h.key) := by
+  unfold Handle.node
+  cases g.child? h.parent h.lname with
+  | some k => exact .inl rfl
+  | none => exact .inr ⟨rfl, rfl⟩
+
+/-- **for all histories**: once an entity was deleted from its block, its node is never linked again — whatever
+follows: creations (also of another entity under its name), deletions, `append`, `extend`, role links, attribute
+writes, reopen, and any of these calls handed ANY kept handle, the deleted entity's own included (`HOp`).  In every
+later state every list refuses it (`append`, and `extend` as soon as it is among the items), as do `positions`,
+`extents` and feature data.  (`k ≠ 0`, `k < g.nextKey`: the node is an entity made earlier — C03's `reachable_wf`.) -/
+theorem deleted_entity_refused_forever (g : Graph) (c : Cont) (k : Nat) (hf : c.info.flavour = .plain)
+    (hk : kindOf g k = c.info.item) (hk0 : k ≠ 0) (hlt : k < g.nextKey) (ops : List HOp) :
+    contDel g c (.ent k) = .ok (g.deleteObjs [k]) ∧
+    Detached (runH (g.deleteObjs [k]) ops) k ∧
+    (∀ c' : Cont, ∃ e, contAppend (runH (g.deleteObjs [k]) ops) c' (.ent k) = .error e) ∧
+    (∀ (c' : Cont) (keys : List Key), Key.ent k ∈ keys →
+      ∃ e, contExtend (runH (g.deleteObjs [k]) ops) c' keys = .error e) ∧
+    (∀ (p : Path) (role : String), role = "positions" ∨ role = "extents" ∨ role = "data" →
+      ∃ e, setRole (runH (g.deleteObjs [k]) ops) p role (some k) = .error e) := by
+  obtain ⟨h1, h2⟩ := deleted_is_detached g c k hf hk
+  have hd := detached_runH hk0 (by rw [nextKey_deleteObjs]; exact hlt) h2 ops
+  exact ⟨h1, hd, fun c' => detached_refused_by_lists _ k hd c',
+    fun c' keys hin => detached_refused_by_extend _ k hd c' keys hin,
+    fun p role hr => detached_refused_by_roles _ k hd p role hr⟩
+
+/-- any detached node, any history: the general form of the above -/
+theorem detached_stays_detached (g : Graph) (k : Nat) (hk0 : k ≠ 0) (hlt : k < g.nextKey) (hd : Detached g k)
+    (ops : List HOp) : Detached (runH g ops) k := detached_runH hk0 hlt hd ops
+
 /-- The reachable-state form: in every state reached by dimension and structural operations no
 range dimension has both ticks and a link.  `ticks_link_exclusive_invariant` proves the step for
 the operations that write ticks, links and data; lifting it to all histories additionally needs
@@ -817,6 +851,30 @@ example : ((demoKey "y").bind fun k => (demoList (demo.g.deleteObjs [k])).map fu
 example : ((demoKey "y").bind fun k => (demoKey "x").bind fun x => (demoList (demo.g.deleteObjs [k])).map fun c =>
     (okOf (contExtend (demo.g.deleteObjs [k]) c [.ent x, .ent k]), okOf (contExtend (demo.g.deleteObjs [k]) c [.ent x]),
      okOf (contExtend demo.g c [.ent x, .ent k]))) = some (false, true, true) := by decide +kernel
+
+/-! the history form: `y` is deleted, another `y` is created, handles are offered.  The handle taken from the block
+(parent = the block's `data_arrays` group, name "y") follows its name: it stands for the new array and is accepted; a
+handle that cannot find its name again (here: one named by an id no list holds) keeps standing for the deleted node,
+which `append` refuses — the group's list holds `x` and the NEW `y`, never the old node -/
+
+def demoStore : Option Nat := (resolve demo.g rootLoc [.name "data", .name "b1", .name "data_arrays"]).map (·.key)
+
+def demoHist (k st : Nat) : List HOp := [
+  .op (.createIn [.name "data", .name "b1"] "data_array" "y" "t" none),
+  .appendH [.name "data", .name "b1", .name "groups", .name "g"] "data_arrays" { parent := st, lname := "gone-id", key := k },
+  .extend [.name "data", .name "b1", .name "groups", .name "g"] "data_arrays"
+    [.key (.obj [.name "data", .name "b1", .name "data_arrays", .name "x"]), .handle { parent := st, lname := "gone-id", key := k }],
+  .setRoleH [.name "data", .name "b1", .name "groups", .name "g"] "positions" { parent := st, lname := "gone-id", key := k },
+  .appendH [.name "data", .name "b1", .name "groups", .name "g"] "data_arrays" { parent := st, lname := "y", key := k }]
+
+def demoAfter : Option Graph :=
+  (demoKey "y").bind fun k => demoStore.map fun st => runH (demo.g.deleteObjs [k]) (demoHist k st)
+
+example : (demoAfter.bind fun g' => (demoKey "y").bind fun k => (demoList g').map fun c =>
+    ((cLinks g' c.node).map (·.2)).contains k) = some false := by decide +kernel
+example : (demoAfter.bind fun g' => (demoList g').map fun c =>
+    (cLinks g' c.node).map fun l => g'.getAttr l.2 "name") = some [some "x", some "y"] := by decide +kernel
+
 
 
 def demoFrameOps : List DOp := [
